@@ -39,32 +39,32 @@ A_CACHE = 'A-cache0/A-atomic: entries present at call start were written by save
 A_GDD = 'get_direct_dependencies is used through its contract (sound, complete by value, complete by instance); its body is verified against the value-tree spec in the C15/C02 value cone'
 
 PROPS = {
-    'C01': dict(functions=SCHED + SERIAL + PROC, lemmas=[], replay='replay.c01', standin='replay.explore',
+    'C01': dict(functions=SCHED + SERIAL + PROC, lemmas=[], replay='replay.explore', standin='replay.explore',
                 assumptions=[A_RUN, A_PROC, A_CACHE, A_GDD,
                              'tasks equal under == have equal cache keys (A-eq; false across 1/True/1.0 parameters)'],
                 design_ref='7/C01'),
     'C02': dict(functions=SCHED + [f'{SR}.submit_task', f'{SR}.wait', f'{PR}.submit_task', f'{PR}.wait', f'{SP}._submit_task', f'{FK}._submit_task'],
-                lemmas=[], replay='replay.c02', standin='replay.explore',
+                lemmas=[], replay='replay.explore', standin='replay.explore',
                 assumptions=[A_RUN, A_PROC, A_GDD, '"start" is the submit event plus the executor\'s process start; the child cannot observe anything later than the fork/spawn snapshot'],
                 design_ref='7/C02'),
-    'C03': dict(functions=SCHED + [f'{SR}.submit_task', f'{PR}.submit_task'], lemmas=[], replay='replay.c03', standin='replay.explore',
+    'C03': dict(functions=SCHED + [f'{SR}.submit_task', f'{PR}.submit_task'], lemmas=[], replay='replay.explore', standin='replay.explore',
                 assumptions=[A_CACHE, A_GDD], design_ref='7/C03'),
     'C04': dict(functions=[f'{TS}.get_ready_tasks', f'{TS}.start_task', f'{TS}.complete_task', f'{TC}.run'] + EXEC,
-                lemmas=[], replay='replay.c04', standin='replay.explore',
+                lemmas=[], replay='replay.explore', standin='replay.explore',
                 assumptions=['A-limits: max_parallel is None or >= 1; max_workers >= 1; os.cpu_count() is an int',
                              '"executing" is over-approximated by "registered as running"/"active", so the bound is conservative',
                              'serial backend: SerialRunner.wait runs at most one submission per call, synchronously (no thread/process is created in serial.py)'],
                 design_ref='7/C04'),
     'C05': dict(functions=[f'{TS}.get_ready_tasks', f'{TS}.start_task', f'{TC}.run', f'{PE}._start_processes', f'{PE}.submit',
                            f'{PE}.wait', f'{PE}._consume_result_queue', f'{PM}:split_done_futures'],
-                lemmas=[], replay='replay.c05', standin='replay.explore',
+                lemmas=[], replay='replay.explore', standin='replay.explore',
                 assumptions=['A-limits', 'resting points are the calls of Runner.wait; OS scheduling latency between Process.start() and the child running is not modelled'],
                 design_ref='7/C05'),
     'C10': dict(functions=SCHED + [f'{SR}.wait', f'{PR}.wait', f'{SP}._submit_task', f'{PM}:_subprocess_target', f'{PE}._consume_result_queue'],
                 lemmas=[], replay='replay.c10', standin='replay.explore',
                 assumptions=[A_PROC, 'that the normal exit is reached is C11'], design_ref='7/C10'),
     'C11': dict(functions=SCHED + SERIAL + [f'{PR}.submit_task', f'{PR}.wait', f'{PR}.pending_task_count'] + EXEC,
-                lemmas=['C11/no-stuck', 'C11/exit', 'C11/measure'], replay='replay.c11', standin='replay.explore',
+                lemmas=['C11/no-stuck', 'C11/exit', 'C11/measure'], replay='replay.explore', standin='replay.explore',
                 assumptions=['A-wo: well-ordering of the naturals (one instance, hypothesis of lemma C11/no-stuck)',
                              'LIVENESS ASSUMED, NOT DECIDED: every child process terminates or dies; Manager().Queue delivers what was put before the putter exited; display code does not block; only the safety core (no stuck state, measure, exit, dead workers are failed and freed) is proved',
                              'A-acyclic: dependencies are structurally nested (no cycles)'],
@@ -85,6 +85,14 @@ PROPS = {
                              'multiprocessing.Process is the DEFAULT context\'s Process class; BaseContext.Process starts with that context\'s start method (assumed contracts)'],
                 not_covered=['the fork child-side function _fork_subprocess_func / _subprocess_func (context filtering in the forked child) is not yet under contract'],
                 design_ref='7/C16'),
+    'C18': dict(functions=['labtech.storage:validate_file_path_key', 'labtech.storage:LocalStorage.__init__', 'labtech.storage:LocalStorage._key_to_path',
+                           'labtech.storage:LocalStorage.find_keys', 'labtech.storage:LocalStorage.exists', 'labtech.storage:LocalStorage.file_handle',
+                           'labtech.storage:LocalStorage.delete'],
+                lemmas=[], replay='replay.c18', standin='replay.c18',
+                assumptions=['TRUSTED path axioms: Path.resolve() is idempotent and returns a canonical symlink-free path; a primitive applied to a canonical path touches that path only (rmtree: its subtree, without following links out of it); iterdir lists direct children',
+                             'every file-system primitive reachable in LocalStorage is one of exists/mkdir/open/rmtree/iterdir/is_dir and is logged by its assumed contract (a new primitive leaves the fragment)',
+                             'no concurrent mutation of the directory tree between the check and the use'],
+                design_ref='7/C18'),
     'C17': dict(functions=[f'{TS}.complete_task', f'{TS}.start_task', f'{TS}.get_ready_tasks', f'{TC}.run', f'{LAB}.run_tasks',
                            f'{SR}.remove_results', f'{PR}.remove_results', f'{SR}.wait', f'{PR}.wait'],
                 lemmas=[], replay='replay.c17', standin='replay.explore',
